@@ -219,6 +219,13 @@ struct SortEngine : Engine {
 		}
 		/* mostly tiny lines: several complete lines fit into one read() behind the line that fills the window */
 		bool tiny = r.chance(1, SIM_NL <= 64 ? 4 : 12);
+		if (!ymcw && ifk == 0 && kind == 2 && r.chance(1, 4)) {	/* date-times only: a bare time under a zone wraps around midnight */
+			static const char *fz[] = {"+05:30", "+11:00", "+01:00", "+12:45", "+00:30"};
+			const char *z = fz[r.below(5)];
+			p.argv.push_back("--from-zone");
+			p.argv.push_back(z);
+			p.par["fromz"] = z;
+		}
 		size_t n;
 		unsigned vk = (unsigned)r.below(100);
 		if (tiny)
@@ -231,6 +238,11 @@ struct SortEngine : Engine {
 			n = SIM_NL <= 64 ? (size_t)r.range(SIM_NL, 5 * SIM_NL) : (size_t)r.range(200, cfg.tier == "thorough" ? 3000 : 900);
 		/* values from a small range so that ties and neighbours abound */
 		int y0 = (int)r.range(1850, 2080);
+		if (r.chance(1, 8)) {
+			/* century years and the ends of the supported range: leap rules, weekday tables */
+			static const int ys[] = {1900, 1900, 1899, 2000, 2100, 1700, 1800, 1601, 2400, 4093, 1999, 2099};
+			y0 = ys[r.below(12)];
+		}
 		std::string in;
 		std::vector<std::string> pool;
 		for (size_t i = 0; i < n; i++) {
@@ -269,7 +281,7 @@ struct SortEngine : Engine {
 					static const char *offs[] = {"Z", "+00:00", "+01:00", "-05:00", "+05:30", "-03:30", "+12:45", "-09:30", "+02:00", "-00:30", "+00:45", "-02:30"};
 					int dd = r.chance(1, 2) ? 1 : d;
 					snprintf(b, sizeof(b), "%04d-%02d-%02dT%02d:%02d:%02d%s", y, m, dd, (int)r.below(24), (int)r.below(60), (int)r.below(60),
-						 r.chance(1, 3) ? offs[r.below(sizeof(offs) / sizeof(*offs))] : "");
+						 !p.par.count("fromz") && r.chance(1, 3) ? offs[r.below(sizeof(offs) / sizeof(*offs))] : "");
 				}
 				else
 					snprintf(b, sizeof(b), "%02d:%02d:%02d", (int)r.below(24), (int)r.below(60), (int)r.below(60));
@@ -363,7 +375,7 @@ struct SortEngine : Engine {
 
 	int dtest(const Plan &base, const std::string &a, const char *op, const std::string &b, Stats &st)
 	{
-		std::string key = a + op + b + (base.par.count("ymcw") ? "#ymcw" : "") + (base.par.count("ifmt") ? "#" + base.par.at("ifmt") : "");
+		std::string key = a + op + b + (base.par.count("ymcw") ? "#ymcw" : "") + (base.par.count("ifmt") ? "#" + base.par.at("ifmt") : "") + (base.par.count("fromz") ? "#" + base.par.at("fromz") : "");
 		auto it = dtest_memo.find(key);
 		if (it != dtest_memo.end()) {
 			st.mix_value(it->second, key);
@@ -377,6 +389,8 @@ struct SortEngine : Engine {
 			q.argv.insert(q.argv.begin() + 1, {"-i", "%Y-%m-%c-%w"});
 		if (base.par.count("ifmt"))
 			q.argv.insert(q.argv.begin() + 1, {"-i", base.par.at("ifmt")});
+		if (base.par.count("fromz"))
+			q.argv.insert(q.argv.begin() + 1, {"--from-zone", base.par.at("fromz")});
 		RunResult r = run_plan(q);
 		st.add_ref(r);
 		int rc = r.crashed() ? -1 : r.exit_code;
